@@ -26,7 +26,7 @@ class C03(Prop):
     id = "C03"
     lean_module = "ProductMD.Properties.C03"
     quick_budget = 1100
-    thorough_budget = 24000
+    thorough_budget = 9000      # ~9 min; 24000 took 26 min (130 MB of JSON through the Lean driver)
     rule = ("manifest = compose section + history of add calls (mostly valid, some refused) built on the real class; real dumps() bytes "
             "= model bytes; loads() into a fresh object: mapping, compose section and header version = model's re-read manifest; "
             "oracle on the real objects: re-read mapping strictly equal (types included) to the built one, compose equal up to the "
